@@ -23,6 +23,8 @@ func init() {
 		Run: runC11,
 		Controls: []Control{
 			{Name: "cursor-adjusted-after-the-probing-loop", File: "routingtable/adjRIBOut/path_id_manager.go", Old: "\tfm.idByPath[hash] = fm.last\n\tfm.ids[fm.last] = 1\n", New: "\tif fm.last == 0 {\n\t\tfm.last++\n\t}\n\tfm.idByPath[hash] = fm.last\n\tfm.ids[fm.last] = 1\n", Expect: "identifier-probed-free-before-use"},
+			{Name: "removal-drops-every-match", File: "route/route.go", Old: "\t\tif paths[j].Compare(remove) {\n\t\t\ti = j\n\t\t\tbreak\n\t\t}\n", New: "\t\tif paths[j].Compare(remove) {\n\t\t\ti = j\n\t\t}\n", Expect: "removal-takes-one-match"},
+			{Name: "removal-by-decision-equality", File: "route/route.go", Old: "\t\tif paths[j].Compare(remove) {\n", New: "\t\tif paths[j].Equal(remove) {\n", Expect: "decision-equality-is-not-identity"},
 			{Name: "known-path-not-counted", File: "routingtable/adjRIBOut/path_id_manager.go", Old: "\t\tid := fm.idByPath[hash]\n\t\tfm.ids[id]++\n\t\treturn id, nil\n", New: "\t\tid := fm.idByPath[hash]\n\t\treturn id, nil\n", Expect: "refcount-follows-users"},
 			{Name: "prefix-wiped-without-releasing-ids", File: "routingtable/adjRIBOut/adj_rib_out.go", Old: "\tfor _, path := range r.Paths() {\n\t\ta.removeExportedPath(pfx, path)\n\t}\n", New: "\ta.removePathsFromClients(pfx, a.rt.RemovePfx(pfx))\n", Expect: "refcount-follows-users"},
 			{Name: "hash-entry-dropped-on-every-release", File: "routingtable/adjRIBOut/path_id_manager.go", Old: "\t\tdelete(fm.idByPath, hash)\n\t\tfm.used--\n\t}\n", New: "\t\tfm.used--\n\t}\n\tdelete(fm.idByPath, hash)\n", Expect: "hash-map-tracks-id-map"},
@@ -35,6 +37,8 @@ func init() {
 }
 
 func runC11(c *core.Ctx) {
+	removalTakesOneMatch(c, "removal-takes-one-match")
+	decisionEqualityIsNotIdentity(c, "decision-equality-is-not-identity")
 	p := c.P
 	refcountFollowsUsers(c, "refcount-follows-users")
 	identifierIsProbedFree(c)
